@@ -52,17 +52,22 @@ def long_entry(name):
     return {"poly": False, "text": name, "root": list(root), "meaning": meaning, "ord": ordw}
 
 
-def both(chord, **kw):
+def both(chord, shared=False, **kw):
     out = {"sok": True, "lok": True, "serr": "", "lerr": "", "short": [], "long": []}
+    if shared:      # one list object handed to both calls, as a caller holding a chord would do
+        chord = list(chord)
+        _list = lambda x: x
+    else:
+        _list = list
     try:
-        s = chords.determine(list(chord), True, **kw)
+        s = chords.determine(_list(chord), True, **kw)
         if not isinstance(s, list):
             raise Shape("list expected")
         out["short"] = [short_entry(x) for x in s]
     except Exception as e:
         out["sok"], out["serr"] = False, type(e).__name__
     try:
-        g = chords.determine(list(chord), False, **kw)
+        g = chords.determine(_list(chord), False, **kw)
         if not isinstance(g, list):
             raise Shape("list expected")
         out["long"] = [long_entry(x) for x in g]
@@ -80,6 +85,7 @@ def run_case(c):
         i = {"kind": "chord", "chord": ch, "base": c["base"], "sh": c["sh"], "root": c["root"], "k": c["k"]}
         R.append(call("determine", dict(i, flags="default"), lambda: both(chord)))
         R.append(call("determine", dict(i, flags="no_polychords"), lambda: both(chord, no_polychords=True)))
+        R.append(call("determine", dict(i, flags="default", same_list=True), lambda: both(chord, shared=True)))
     elif k in ("triple", "random", "theory", "extended"):
         R.append(call("determine", {"kind": k, "chord": ch, "base": [], "k": 0, "flags": "default"}, lambda: both(chord)))
     elif k == "small":
